@@ -144,3 +144,143 @@ M.loop(P_COMBI + ':Disjunction.matches_w_trace', 0,
        invariant=lambda _i, self, ghost:
        ghost['last_applied_index'] == _i - 1 and forall_range(0, _i, lambda j: not self._operands[j].D()),
        modifies={'operand': 'local', 'result': 'local', 'ghost:last_applied_index': Int})
+
+# ============================================================================== (c) order through the layers
+# sdv --resolve--> ddv --value_of_any_dependency--> adv --primitive--> matcher.
+# Every object of a layer carries a ghost tag `origin` (which operand of the source expression it
+# stems from); the step to the next layer yields an object with the same origin (that is what "the
+# image of operand j" means).  The contracts say: the operand list of the result has the same length
+# and, position by position, the origin of the operand it was made from; the model freezer is passed on.
+
+from exactly_lib.impls.types.matcher.impls import combinator_sdvs
+from exactly_lib.type_val_deps.types.matcher import MatcherSdv
+from exactly_lib.type_val_deps.dep_variants.ddv.matcher import MatcherDdv
+from exactly_lib.type_val_deps.dep_variants.adv.matcher import MatcherAdv
+
+P_SDVS = 'exactly_lib.impls.types.matcher.impls.combinator_sdvs'
+
+
+def _same_origin(a, b):
+    return a.origin == b.origin
+
+
+def _image(next_layer, label):
+    """Model of the step to the next layer: a new object of the next layer, indexed like its source
+    (so the image of operand j is a function of j), with the origin of its source."""
+
+    def model(interp, self, args, kwargs):
+        r = new_opaque(interp, next_layer(), self._pv_uid + label, index=self._pv_index)
+        assume_pred(interp, _same_origin, self, r)
+        return r
+
+    return model
+
+
+class MatcherSdvI(Interface):
+    target_class = MatcherSdv
+    attrs = {'origin': Int, 'references': Any_}
+    methods = {'resolve': Method(model=_image(lambda: MatcherDdvI, '.resolve()'))}
+
+
+class MatcherDdvI(Interface):
+    target_class = MatcherDdv
+    attrs = {'origin': Int, 'validator': Any_}
+    methods = {'value_of_any_dependency': Method(model=_image(lambda: MatcherAdvI, '.value_of_any_dependency()'))}
+
+
+class MatcherAdvI(Interface):
+    target_class = MatcherAdv
+    attrs = {'origin': Int}
+    methods = {'primitive': Method(model=_image(lambda: MatcherI, '.primitive()'))}
+
+
+class MatcherI(Interface):
+    target_class = MatcherWTrace
+    attrs = {'origin': Int}
+
+
+def image_in_order(result_operands, source_operands):
+    """same length and, position by position, the image of the source operand"""
+    return len(result_operands) == len(source_operands) and \
+        forall_range(0, len(source_operands), lambda j: result_operands[j].origin == source_operands[j].origin)
+
+
+# --- sdv -> ddv
+
+M.contract(P_SDVS + ':Negation.resolve',
+           params=dict(self=Inst(combinator_sdvs.Negation, _operand=Iface(MatcherSdvI)), symbols=Any_),
+           ensures={
+               'negation-of-the-image-of-the-operand': lambda self, result:
+               type(result) is combinator_matchers.NegationDdv and result._operand.origin == self._operand.origin,
+           }, raises_only=())
+
+for _name, _ddv in (('Conjunction', combinator_matchers.ConjunctionDdv),
+                    ('Disjunction', combinator_matchers.DisjunctionDdv)):
+    M.contract('%s:%s.resolve' % (P_SDVS, _name),
+               params=dict(self=Inst(getattr(combinator_sdvs, _name), _operands=ListOf(Iface(MatcherSdvI)),
+                                     _model_freezer=Any_, _references=Any_),
+                           symbols=Any_),
+               ghosts=dict(ddv_class=Const(_ddv)),
+               ensures={
+                   'same-operator': lambda result, ddv_class: type(result) is ddv_class,
+                   'operands: same length, same order, each the image of its source': lambda self, result:
+                   image_in_order(result._operands, self._operands),
+                   'model-freezer-passed-on': lambda self, result: result._model_freezer is self._model_freezer,
+               }, raises_only=())
+
+# --- ddv -> adv
+
+M.contract(P_COMBI + ':NegationDdv.value_of_any_dependency',
+           params=dict(self=Inst(combinator_matchers.NegationDdv, _operand=Iface(MatcherDdvI)), tcds=Any_),
+           ensures={
+               'negation-of-the-image-of-the-operand': lambda self, result:
+               type(result) is combinator_matchers._NegationAdv and result._operand.origin == self._operand.origin,
+           }, raises_only=())
+
+for _name, _prim in (('ConjunctionDdv', combinator_matchers.Conjunction),
+                     ('DisjunctionDdv', combinator_matchers.Disjunction)):
+    M.contract('%s:%s.value_of_any_dependency' % (P_COMBI, _name),
+               params=dict(self=Inst(getattr(combinator_matchers, _name), _operands=ListOf(Iface(MatcherDdvI)),
+                                     _model_freezer=Any_, _validator=Any_),
+                           tcds=Any_),
+               ghosts=dict(matcher_class=Const(_prim)),
+               ensures={
+                   'same-operator': lambda result, matcher_class:
+                   type(result) is combinator_matchers._SequenceOfOperandsAdv
+                   and result._make_matcher is matcher_class,
+                   'operands: same length, same order, each the image of its source': lambda self, result:
+                   image_in_order(result._operands, self._operands),
+                   'model-freezer-passed-on': lambda self, result: result._model_freezer is self._model_freezer,
+               }, raises_only=())
+
+M.contract(P_COMBI + ':_SequenceOfOperandsAdv.of',
+           params=dict(make_matcher=OneOf(combinator_matchers.Conjunction, combinator_matchers.Disjunction),
+                       operands=ListOf(Iface(MatcherDdvI)), model_freezer=Any_, tcds=Any_),
+           inline=True,
+           ensures={
+               'same-operator': lambda make_matcher, result: result._make_matcher is make_matcher,
+               'operands: same length, same order, each the image of its source': lambda operands, result:
+               image_in_order(result._operands, operands),
+               'model-freezer-passed-on': lambda model_freezer, result: result._model_freezer is model_freezer,
+           }, raises_only=())
+
+# --- adv -> primitive
+
+M.contract(P_COMBI + ':_NegationAdv.primitive',
+           params=dict(self=Inst(combinator_matchers._NegationAdv, _operand=Iface(MatcherAdvI)), environment=Any_),
+           ensures={
+               'negation-of-the-image-of-the-operand': lambda self, result:
+               type(result) is combinator_matchers.Negation and result._negated.origin == self._operand.origin,
+           }, raises_only=())
+
+M.contract(P_COMBI + ':_SequenceOfOperandsAdv.primitive',
+           params=dict(self=Inst(combinator_matchers._SequenceOfOperandsAdv,
+                                 _make_matcher=OneOf(combinator_matchers.Conjunction, combinator_matchers.Disjunction),
+                                 _operands=ListOf(Iface(MatcherAdvI)), _model_freezer=Any_),
+                       environment=Any_),
+           ensures={
+               'same-operator': lambda self, result: type(result) is self._make_matcher,
+               'operands: same length, same order, each the image of its source': lambda self, result:
+               image_in_order(result._operands, self._operands),
+               'model-freezer-passed-on': lambda self, result: result._model_freezer is self._model_freezer,
+           }, raises_only=())
